@@ -64,6 +64,9 @@ def gen_plan(seed: int, run: int, tier: str) -> dict:
         "p_seam": rng.choice([0.1, 0.3, 0.6]),
         "short_writes": rng.random() < 0.3,
     }
+    if any(r["pad"] >= 4000 for t in tasks.values() for o in t["ops"] for r in o.get("recs", [])):
+        # multi-KiB records with 16-byte read blocks would cost hundreds of thousands of steps
+        cfg["read_block"] = rng.choice([256, 1024, 8192])
     return {"check": ID, "seed": seed, "run": run, "cfg": cfg, "tasks": tasks, "sched": {"seed": rng.getrandbits(48)}}
 
 
@@ -87,7 +90,7 @@ def payload(rec: dict, task: str) -> dict:
 def run_plan(plan: dict) -> dict:
     cfg = plan["cfg"]
     ch = common.make_chooser(plan)
-    sim = sched.Sim(ch, trace_suffixes=("optuna/storages/journal/_file.py",), max_steps=200000, uuid_salt=str(plan.get("run", 0)))
+    sim = sched.Sim(ch, trace_suffixes=("optuna/storages/journal/_file.py",), max_steps=600000, uuid_salt=str(plan.get("run", 0)))
     dep = deploy.Deployment(sim, "jf-" + cfg["lock"], cfg)
     try:
         return _run(plan, sim, ch, dep)
@@ -249,7 +252,13 @@ def _run(plan: dict, sim: sched.Sim, ch: sched.Chooser, dep: deploy.Deployment) 
         why = "; ".join("%s blocked on %s" % (t.name, t.blocked_why) for t in tasks if not t.done)
         return common.result(sim, ch, "violation", prefix + "deadlock", why)
     if status == "stepcap":
-        return common.result(sim, ch, "violation", prefix + "livelock", "step cap reached without faults: some task never finishes")
+        # a step cap alone proves nothing (large records x small read blocks are simply long
+        # runs); a livelock shows as *virtual time* piling up in back-off sleeps while nobody
+        # makes progress - far beyond what the idle gaps of the plan account for
+        idle = sum(o.get("dur", 0.0) for t in plan["tasks"].values() for o in t["ops"] if o["op"] == "idle")
+        if sim.now - sim.t0 - idle > 300.0:
+            return common.result(sim, ch, "violation", prefix + "livelock", "step cap reached after %.0f simulated seconds of waiting (idle gaps in the plan: %.0f s): some task never gets the lock / never finishes" % (sim.now - sim.t0, idle))
+        return common.result(sim, ch, "inconclusive", None, "step cap (long run)")
     for t in tasks:
         if t.exc is not None:
             raise RuntimeError("task %s died: %r" % (t.name, t.exc)) from t.exc
